@@ -177,6 +177,10 @@ pub fn run(out: &mut impl Write, seed: u64, cases: usize, _replay: &str, burst: 
                         let nclients = r.pick(&[3usize, 4, 6]);
                         let mut clients: Vec<Client> = (0..nclients).map(|_| Client { conn: WsConn::connect(server.port) }).collect();
                         let pids: Vec<[u8; 20]> = (0..64u8).map(|i| id20(0x2d, i)).collect();
+                        // in every other history the even clients use a second peer id of their own for the torrents with an even
+                        // first byte: one connection, several torrents, not one peer id for all of them (what a close must clean up)
+                        let two_ids = case % 2 == 1;
+                        let own = |c: usize, h: &[u8; 20]| -> [u8; 20] { if two_ids && c % 2 == 0 && h[0] % 2 == 0 { pids[32 + c] } else { pids[c] } };
                         let mut forwarded: Vec<(String, String, usize, String)> = Vec::new(); // hash, from pid, to client, offer id
                         let mut announced: std::collections::HashMap<(usize, [u8; 20]), [u8; 20]> = std::collections::HashMap::new();
                         let mut next_oid: u8 = 1;
@@ -190,7 +194,7 @@ pub fn run(out: &mut impl Write, seed: u64, cases: usize, _replay: &str, burst: 
                             // another peer id, with any event
                             let mut directed: Option<(usize, [u8; 20], [u8; 20], String)> = None;
                             if !burst_case && opi == nops * 2 / 3 && live.len() >= 3 {
-                                let mut own: Vec<(usize, [u8; 20])> = announced.iter().filter(|((c, _), p)| live.contains(c) && **p == pids[*c]).map(|((c, h), _)| (*c, *h)).collect();
+                                let mut own: Vec<(usize, [u8; 20])> = announced.iter().filter(|((c, h), p)| live.contains(c) && **p == own(*c, h)).map(|((c, h), _)| (*c, *h)).collect();
                                 own.sort();
                                 if !own.is_empty() {
                                     let (c, h) = own[r.below(own.len() as u64) as usize];
@@ -249,12 +253,12 @@ pub fn run(out: &mut impl Write, seed: u64, cases: usize, _replay: &str, burst: 
                             }
                             if k < 70 {
                                 let hash = hashes[r.below(hashes.len() as u64) as usize];
-                                let pid = if r.chance(if announced.contains_key(&(ci, hash)) { 78 } else { 88 }) { pids[ci] } else { pids[r.below(clients.len() as u64) as usize] };
+                                let pid = if r.chance(if announced.contains_key(&(ci, hash)) { 78 } else { 88 }) { own(ci, &hash) } else { pids[r.below(clients.len() as u64) as usize] };
                                 let event = r.pick(&["started", "stopped", "completed", "update", "none", "none", "none"]).to_string();
                                 let event = if event == "stopped" && r.chance(50) { "none".to_string() } else { event };
                                 // a second peer id on a connection that has announced this torrent: every kind of event, `stopped` often
                                 // (the check of the peer id must not depend on the event)
-                                let event = if pid != pids[ci] && announced.contains_key(&(ci, hash)) && r.chance(45) { "stopped".to_string() } else { event };
+                                let event = if pid != own(ci, &hash) && announced.contains_key(&(ci, hash)) && r.chance(45) { "stopped".to_string() } else { event };
                                 let (hash, pid, event) = if let Some((_, h, p, e)) = &directed { (*h, *p, e.clone()) } else { (hash, pid, event) };
                                 let left = r.pick(&[None, Some(0usize), Some(0), Some(7), Some(7)]);
                                 let offers = if r.chance(55) {
@@ -266,8 +270,8 @@ pub fn run(out: &mut impl Write, seed: u64, cases: usize, _replay: &str, burst: 
                                 let mut ci = ci;
                                 let answer = if directed.is_none() && r.chance(35) && !forwarded.is_empty() {
                                     let f = forwarded[r.below(forwarded.len() as u64) as usize].clone();
-                                    if clients[f.2].conn.is_some() && r.chance(80) { ci = f.2; pid = pids[ci]; }
                                     hash = crate::store::arr20(&crate::store::unhex(&f.0));
+                                    if clients[f.2].conn.is_some() && r.chance(80) { ci = f.2; pid = own(ci, &hash); }
                                     Some((crate::store::arr20(&crate::store::unhex(&f.1)), crate::store::arr20(&crate::store::unhex(&f.3)), r.below(1000) as u32))
                                 } else if r.chance(10) {
                                     Some((pids[r.below(pids.len() as u64) as usize], id20(0x6f, 200), 1))
